@@ -247,10 +247,12 @@ theorem sinkSlowMultiLine_only_eq (sc : SCfg) (c : StdCfg) (s : Sunk) (hne : s.m
 /-! ### the matches of a sane matcher are sorted and disjoint -/
 
 open RgVerif.Lemmas.PrinterIter in
-theorem iterGo_sorted (find : Nat → Option Span) (len re : Nat) (atEnd : Bool) (hs : Sane find len) :
+theorem iterGo_sorted (find : Nat → Option Span) (len d : Nat) (keep : Span → Bool) (tr : Span → Span)
+    (hs : Sane find len)
+    (htr : ∀ m, (tr m).s = m.s + d ∧ (tr m).e ≤ m.e + d ∧ (keep m = true → m.s ≤ m.e → (tr m).s ≤ (tr m).e)) :
     ∀ (fuel lastEnd : Nat) (lastMatch : Option Nat) (acc : List Span),
-      (∀ m ∈ acc, m.e ≤ lastEnd) → Sorted acc →
-      Sorted (iterGo id find len (step re atEnd) fuel lastEnd lastMatch acc) := by
+      (∀ m ∈ acc, m.e ≤ lastEnd + d) → Sorted acc →
+      Sorted (iterGo id find len (gstep keep tr) fuel lastEnd lastMatch acc) := by
   intro fuel
   induction fuel with
   | zero => intro le lm acc _ h; simpa [iterGo] using h
@@ -266,8 +268,9 @@ theorem iterGo_sorted (find : Nat → Option Span) (len re : Nat) (atEnd : Bool)
         simp only
         have hge := hs.ge le m hf
         have hme := hs.le le m hf
-        have hnew : (m.s < re ∨ (atEnd = true ∧ m.s = re)) → Sorted (acc ++ [⟨m.s, min m.e re⟩]) := by
-          intro hc
+        obtain ⟨t1, t2, t3⟩ := htr m
+        have hnew : keep m = true → Sorted (acc ++ [tr m]) := by
+          intro hk
           refine ⟨?_, ?_⟩
           · rw [List.pairwise_append]
             refine ⟨hsorted.1, by simp, ?_⟩
@@ -275,19 +278,18 @@ theorem iterGo_sorted (find : Nat → Option Span) (len re : Nat) (atEnd : Bool)
             simp only [List.mem_singleton] at hb
             subst hb
             have := hacc a ha
-            simp only
             omega
           · intro x hx
             rcases List.mem_append.mp hx with hx | hx
             · exact hsorted.2 x hx
             · simp only [List.mem_singleton] at hx; subst hx
-              simp only; omega
-        have hbound : ∀ k, m.e ≤ k → ∀ x ∈ acc ++ [⟨m.s, min m.e re⟩], x.e ≤ k := by
+              exact t3 hk hme
+        have hbound : ∀ k, m.e ≤ k → ∀ x ∈ acc ++ [tr m], x.e ≤ k + d := by
           intro k hk x hx
           rcases List.mem_append.mp hx with hx | hx
           · have := hacc x hx; omega
-          · simp only [List.mem_singleton] at hx; subst hx; simp only; omega
-        rcases step_cases re atEnd acc m with hst | ⟨hst, hcond⟩
+          · simp only [List.mem_singleton] at hx; subst hx; omega
+        rcases gstep_cases keep tr acc m with ⟨hst, _⟩ | ⟨hst, hk⟩
         · by_cases h1 : (m.s == m.e) = true
           · simp only [h1, ↓reduceIte]
             by_cases h2 : (some m.e == lm) = true
@@ -303,19 +305,30 @@ theorem iterGo_sorted (find : Nat → Option Span) (len re : Nat) (atEnd : Bool)
             · simp only [h2, ↓reduceIte]
               exact ih _ _ _ (fun x hx => by have := hacc x hx; omega) hsorted
             · simp only [h2, Bool.false_eq_true, ↓reduceIte, hst]
-              exact ih _ _ _ (hbound (m.e + 1) (by omega)) (hnew hcond)
+              exact ih _ _ _ (hbound (m.e + 1) (by omega)) (hnew hk)
           · simp only [h1, Bool.false_eq_true, ↓reduceIte, hst]
-            exact ih _ _ _ (hbound m.e (Nat.le_refl _)) (hnew hcond)
+            exact ih _ _ _ (hbound m.e (Nat.le_refl _)) (hnew hk)
 
 open RgVerif.Lemmas.PrinterIter in
 /-- What every printer records for a range: sorted, disjoint, well-formed matches (sane matcher). -/
 theorem findIterInContext_sorted (sc : SCfg) (find : Oracle) (bytes : Bytes) (rs re : Nat)
-    (hs : Sane (find (cutHaystack sc bytes re)) (cutHaystack sc bytes re).length) :
+    (hs : Sane (find (shownHay sc bytes rs re)) (shownHay sc bytes rs re).length) :
     Sorted (shiftSpans rs (findIterInContext sc find bytes rs re)) := by
-  have h := iterGo_sorted (find (cutHaystack sc bytes re)) (cutHaystack sc bytes re).length re
-    (isAtUnterminatedEnd sc.lt (cutHaystack sc bytes re) rs re) hs ((cutHaystack sc bytes re).length + 2) rs none []
-    (by simp) ⟨by simp, by simp⟩
-  rw [← findIterInContext_eq] at h
+  have h : Sorted (findIterInContext sc find bytes rs re) := by
+    rw [findIterInContext_shown]
+    by_cases hml : sc.multiLine = true
+    · simp only [hml, ↓reduceIte]
+      refine iterGo_sorted _ _ 0 _ _ hs ?_ _ _ none [] (by simp) ⟨by simp, by simp⟩
+      intro m
+      refine ⟨by simp [trML], by simp only [trML]; omega, ?_⟩
+      intro hk hme
+      have := (beyondRange_false_iff re _ m.s).mp (by simpa [keepML] using hk)
+      simp only [trML]
+      rcases this with h | ⟨_, h⟩ <;> omega
+    · simp only [hml, Bool.false_eq_true, ↓reduceIte]
+      refine iterGo_sorted _ _ rs _ _ hs ?_ _ _ none [] (by simp) ⟨by simp, by simp⟩
+      intro m
+      exact ⟨by simp [trLine], by simp [trLine], fun _ hme => by simp only [trLine]; omega⟩
   unfold shiftSpans
   refine ⟨?_, ?_⟩
   · rw [List.pairwise_map]
